@@ -80,7 +80,7 @@ Definition is_constructor (st : state) (v : value) : bool :=
                | _ => false
                end
            | None => false
-           end end) 1000%nat l
+           end end) LABEL_FUEL l
   | _ => false
   end.
 
@@ -366,7 +366,7 @@ Definition bind_step (c : ctx) (p : pat) (v : value) (mode : bind_mode) : M unit
                     (fix drain (fuel : nat) (acc : list value) : M (list value) :=
                        match fuel with O => fun _ => RFuel | Datatypes.S f =>
                          do s <- iterator_step self it nx;;
-                         match s with None => ret (rev acc) | Some x => drain f (x :: acc) end end) 100000%nat []);;
+                         match s with None => ret (rev acc) | Some x => drain f (x :: acc) end end) LOOP_FUEL []);;
           do arr <- array_from_list vs;;
           match pre with
           | Some ok => put_value_prop self (fst ok) (snd ok) arr (c_strict c)
